@@ -224,3 +224,74 @@ Proof.
     assert (L : length (abs_of (x :: cs) ++ SL :: c) = length (abs_of (x :: cs))) by (rewrite E; reflexivity).
     rewrite app_length in L. simpl in L. lia.
 Qed.
+
+(* ------------------------------------------------------------------ "/…/c/.." is the lexical parent *)
+Lemma clean_not_dotdot : forall c, cleanb c = true -> str_eqb c s_dotdot = false.
+Proof. intros c H. destruct (cleanb_inv c H) as [_ [_ [_ E]]]. exact E. Qed.
+
+Lemma path_join_pardir : forall cs c, forallb cleanb cs = true -> cleanb c = true ->
+  path_join (abs_of (cs ++ [c])) s_dotdot = abs_of (cs ++ [c]) ++ SL :: s_dotdot.
+Proof.
+  intros cs c H Hc. unfold path_join. change (starts_sl s_dotdot) with false. cbv iota.
+  rewrite ends_sl_abs_of; [| destruct cs; discriminate | rewrite forallb_app, H; simpl; rewrite Hc; reflexivity].
+  remember (abs_of (cs ++ [c])) as p. destruct p; [destruct cs; discriminate|]. reflexivity.
+Qed.
+
+Lemma fold_left_norm_app : forall isabs l1 l2 acc,
+  fold_left (norm_step isabs) (l1 ++ l2) acc = fold_left (norm_step isabs) l2 (fold_left (norm_step isabs) l1 acc).
+Proof. intros. apply fold_left_app. Qed.
+
+Lemma norm_step_pardir : forall c acc, cleanb c = true -> norm_step true (c :: acc) s_dotdot = acc.
+Proof.
+  intros c acc Hc. unfold norm_step. change (str_eqb s_dotdot []) with false.
+  change (str_eqb s_dotdot s_dot) with false. simpl orb. cbv iota. rewrite str_eqb_refl.
+  rewrite (clean_not_dotdot c Hc). reflexivity.
+Qed.
+
+Lemma norm_comps_pardir : forall cs c, forallb cleanb cs = true -> cleanb c = true ->
+  norm_comps true (([] :: cs ++ [c]) ++ [s_dotdot]) = cs.
+Proof.
+  intros cs c H Hc. unfold norm_comps. rewrite fold_left_app.
+  assert (Hall : forallb cleanb (cs ++ [c]) = true) by (rewrite forallb_app, H; simpl; rewrite Hc; reflexivity).
+  assert (F : fold_left (norm_step true) ([] :: cs ++ [c]) [] = c :: rev cs).
+  { simpl. change (norm_step true [] []) with (@nil str).
+    rewrite (norm_fold_clean _ [] true Hall), app_nil_r, rev_app_distr. reflexivity. }
+  unfold str in *. rewrite F. change (fold_left (norm_step true) [s_dotdot] (c :: rev cs)) with (norm_step true (c :: rev cs) s_dotdot).
+  pose proof (norm_step_pardir c (rev cs) Hc) as Z. unfold str in Z. rewrite Z. apply rev_involutive.
+Qed.
+
+Lemma abspath_pardir : forall cwd cs c, forallb cleanb cs = true -> cleanb c = true ->
+  abspath cwd (path_join (abs_of (cs ++ [c])) s_dotdot) = abs_of cs.
+Proof.
+  intros cwd cs c H Hc. rewrite (path_join_pardir cs c H Hc).
+  assert (Hall : forallb cleanb (cs ++ [c]) = true) by (rewrite forallb_app, H; simpl; rewrite Hc; reflexivity).
+  assert (Hne : cs ++ [c] <> []) by (destruct cs; discriminate).
+  unfold abspath.
+  assert (St : starts_sl (abs_of (cs ++ [c]) ++ SL :: s_dotdot) = true) by reflexivity.
+  rewrite St. unfold normpath.
+  remember (abs_of (cs ++ [c]) ++ SL :: s_dotdot) as p eqn:Ep.
+  destruct p as [|a p']; [discriminate|]. rewrite Ep.
+  assert (IS : initial_slashes (abs_of (cs ++ [c]) ++ SL :: s_dotdot) = 1%nat).
+  { destruct cs as [|x cs'].
+    - simpl app. destruct (first_char_clean c Hc) as [y [r [-> Hy]]]. unfold abs_of. simpl. rewrite Hy. reflexivity.
+    - assert (Hx : cleanb x = true) by (simpl in H; apply andb_true_iff in H; tauto).
+      destruct (first_char_clean x Hx) as [y [r [-> Hy]]]. unfold abs_of.
+      change (((y :: r) :: cs') ++ [c]) with ((y :: r) :: (cs' ++ [c])).
+      destruct (cs' ++ [c]) eqn:E; [destruct cs'; discriminate|]. simpl. rewrite Hy. reflexivity. }
+  rewrite IS. simpl Nat.eqb. simpl negb.
+  rewrite split_sl_app, (split_abs_of _ Hne Hall).
+  change (split_sl s_dotdot) with [s_dotdot].
+  pose proof (norm_comps_pardir cs c H Hc) as Z. unfold str in *. rewrite Z. reflexivity.
+Qed.
+
+Lemma norm_split_abs_of : forall cs, forallb cleanb cs = true -> norm_comps true (split_sl (abs_of cs)) = cs.
+Proof.
+  intros cs H. destruct cs as [|c cs]; [reflexivity|].
+  rewrite split_abs_of by (auto; discriminate). apply norm_comps_clean. exact H.
+Qed.
+
+(* resolving "/" *)
+Lemma walk_root_slash : forall root, walk FUEL root [] [[]; []] = Some [].
+Proof. reflexivity. Qed.
+Lemma walk_root_empty : forall root, walk FUEL root [] [[]] = Some [].
+Proof. reflexivity. Qed.
